@@ -73,9 +73,8 @@ Definition spec_impl (wait : N) (srvs : list server) (impl_T : option N)
   && all2 (fun s os => all2 (fun l o => all2 (item_ok wait impl_T) (litems l ++ map (fun _ => Inf) (lstuck l)) o) (leaves s) os) srvs impl
   && match impl_T with Some T => T <=? wait + spec_slack | None => false end.
 
-(* finding region 1 (F-C18-1): a gRPC stream outlives the wait = [over_wait] of
-   Proofs/Shutdown.v, the predicate of C18_bounded_iff *)
-
+(* no finding region: F-C18-1 (gRPC Shutdown ignored its deadline) was repaired by fix 72215e8;
+   by C18_bounded the model satisfies the bound for every input *)
 Definition check_case (c : case) : N :=
   match c with
   | CScen wait srvs impl_T probe_at acc1 acc2 impl lo hi =>
@@ -87,7 +86,7 @@ Definition check_case (c : case) : N :=
         && all2 (fun r os => all2 (fun lr o => all2 (fate_matches lo hi) (r_fates lr ++ r_stuck lr) o) (s_leaves r) os)
                 (g_servers g) impl in
       let spec := spec_impl wait srvs impl_T acc1 acc2 impl in
-      let region := if over_wait wait srvs then Some 1 else None in
+      let region : option N := None in
       let nontriv := existsb (fun s => existsb (fun l => negb (match litems l ++ lstuck l with [] => true | _ => false end)) (leaves s)) srvs in
       verdict same spec region nontriv
   end.
